@@ -34,6 +34,20 @@ CHECKS["C18"] = ("symbolic evaluation of biclosed box signatures, functor routin
     "Decides type preservation of the biclosed->rigid translation for FA, BA, FC, BC, FX, BX and Curry on symbolic multi-wire (possibly empty) types, with box signatures, routing and slash images all "
     "extracted from source; decides that eager_parse only contracts adjacent adjoints with a partitioning layer and returns only the target type, that CFG.generate only applies the grammar's "
     "productions to a matching leftmost symbol and yields closed sentences, and the slash directions of cat2ty. Not decided: which derivations a random CFG run produces.", TB, "DESIGN.md §4 C18")
+CHECKS["C02"] = ("abstract evaluation of then/tensor on generic diagrams (functional summaries); shape rules for sums; abstract construction of generic box instances and abstract execution of every dagger (engine C′)",
+    "Decides that the functional summaries of then / tensor / dagger / slicing / id on (dom, cod, boxes, offsets) equal the free strict-monoidal algebra (the laws follow by list algebra and are listed, not re-executed), "
+    "that sums distribute term-wise in left-major order with typed units, and that for every concrete box class of the package and every combination of its finite constructor parameters the dagger binds against the "
+    "constructor, swaps dom/cod and is involutive on name, types, data, dagger flag and mixedness. The dagger of bubbles is a recorded known finding.", TB, "DESIGN.md §4 C02")
+CHECKS["C03"] = ("attribute-flow analysis of __eq__/__hash__/__repr__ resolved along the MRO, on constructor-parameter access paths obtained from constructor provenance; format-string branch enumeration for repr syntax",
+    "Decides for every class of cat, monoidal, rigid: __eq__ compares exactly the structural fields; defining __eq__ comes with __hash__; everything reaching the hash is determined by what __eq__ compares; "
+    "__repr__ is balanced constructor syntax of the class whose keywords are constructor parameters and shows every path __eq__ compares; empty / one-box arrows print as identity / the box. "
+    "Not decided: that eval(repr(x)) runs in a namespace with the right names; cross-class equality beyond box vs one-box diagram.", TB, "DESIGN.md §4 C03")
+CHECKS["C08"] = ("axis-layout typing of numpy code: block-wise evaluation of moveaxis index maps as bijections of axis blocks; contraction-count and guard rules",
+    "Decides for symbolic (empty, multi-wire) types that Tensor.then/tensor/dagger/swap/id/cups/caps produce arrays whose axis layout is [dom | cod] of the stated type with the right wiring "
+    "(contraction of |cod| axes under the cod==dom guard, Kronecker re-ordering bijection, conjugated transpose, block exchange of the identity, delta cups). Numeric values are not examined.", TB, "DESIGN.md §4 C08")
+CHECKS["C09"] = ("axis-layout loop invariant of tensor.Functor.__call__ by abstract evaluation of one generic box step and one generic swap step; dispatch analysis; flag-dagger typestate of every reader of a box's array",
+    "Decides that the contraction loop keeps the invariant 'array layout = [F(dom) | F(scan)]' (hence computes the layer-by-layer composite for every diagram), the dispatch order/totality and structural "
+    "images, and that every reader of a box's array handles the dagger flag first (functor, to_tn). Spider arrays are deltas. Numeric values are not examined.", TB, "DESIGN.md §4 C09")
 NOT_YET = "check not built yet in this round (static rules designed in DESIGN.md §4; will be claimed when the rule module lands)"
 NOT_APPLICABLE = {("C%02d" % i): NOT_YET for i in range(1, 21) if ("C%02d" % i) not in CHECKS}
 NOTES = ("All checks are static analyses of /repo/discopy's source (python -m sa.check <id>); exit 0 / 1 (VIOLATION) / 2 (ANALYSIS-ERROR). "
